@@ -194,6 +194,9 @@ def blotter_protocol(ctx, bt, specs, corr="blotter:rows-per-call"):
                 continue
             finally:
                 core.SecurityBase.transact = orig
+            if b.strategy.bankrupt:
+                ctx.count("blotter-run-bankrupt:not-compared")     # liquidation trades, and no calls after the bankruptcy
+                continue
             frame = b.additional_data["blotter"]
             stamps = [int(pd.Timestamp(x).value) for x in frame.index.get_level_values("Date")]
             tl = [int(pd.Timestamp(x).value) for x in b.data.index]
@@ -243,7 +246,7 @@ def run(ctx, bt, scale=1):
             ctx.sample({"tree": spec["tree"], "plan": spec["perturb_plan"]})
         run_pair(ctx, bt, spec, build_program)
     for _ in range(ctx.scale(20, 500) * scale):
-        spec = FI.gen_program(ctx.rng)
+        spec = FI.gen_program(ctx.rng, winddown=True)
         spec["kind"] = "fi"
         spec["perturb_plan"] = gen_plan(ctx.rng, spec["dates"])
         if spec["perturb_plan"]["mode"] in ("flip", "drop"):
